@@ -228,6 +228,17 @@ def check(tier, seed, replay=None):
             for argv in (["--style=pretty"], ["--style=pretty", "--utf8-strings", "--select=. =v"], ["--style=consise", "--group-by=\"g\""], ["--style=pretty", "--merge"],
                          ["--output-style=text"], ["--output-style=csv", "--select=. =v"], ["--style=pretty", "--select=(stringify .) =s", "--select=(parse (stringify .)) =p"]):
                 cases.append({"id": 0, "argv": argv, "stdin": hexs(doc + b"\n"), "_expr": "nesting %d %s" % (d, argv[0])})
+    # expressions that are given as data: text evaluated by parse_selection (also text that evaluates text), and timestamps far outside the calendar
+    for argv, data in ((["--select=(parse_selection .) =x"], b'"(parse_selection \\"1\\")"\n"(+ 1 2)"\n"(parse_selection \\"(parse_selection \\\\\\"(size .)\\\\\\")\\")"\n"("\n'),
+                       (["--select=(parse_selection .a) =x"], b'{"a": "(parse_selection .b)", "b": "(+ 3 4)"}\n{"a": ".b", "b": 1}\n{"a": "(parse_selection .a)"}\n'.replace(b'{"a": "(parse_selection .a)"}\n', b"")),
+                       (["--select=(parse_selection (parse_selection .)) =x"], b'"\\"(size .)\\""\n"1"\n'),
+                       (["--select=(map . (parse_selection .)) =x"], b'["(+ 1 1)", "(parse_selection \\"2\\")", "(", 5]\n')):
+        cases.append({"id": 0, "argv": argv, "stdin": hexs(data), "_expr": "parse_selection"})
+    tnums = ["0", "1701611515", "1701611515.360367", "1701611515360367", "8210266876799", "8210266876800", "9007199254740992", "-9007199254740992", "9.2e15", "-9.2e15", "1e300",
+             "-1e300", "18446744073709551615", "-62135596800", "-62135596801", "253402300799", "253402300800", "1e18", "-1e18", "0.000000001", "1e-300"]
+    for fmt in ('"%Y-%m-%d %H:%M:%S"', '"%s"', '"%+"', '"%c %f"'):
+        cases.append({"id": 0, "argv": ["--select=(format_time . %s) =t" % fmt, "--select=(format_time (* . 1000000) %s) =u" % fmt], "stdin": hexs("\n".join(tnums).encode() + b"\n"),
+                      "_expr": "format_time"})
     # invalid and valid patterns, constant and from the data, under every cache size
     for size in (0, 1, 2, 64):
         for argv in (["--select=(match .s .p) =m", "--select=(extract_regex_group .s .p 1) =g"], ["--filter=(match .s \"[\")"], ["--select=(match .s \"a(\") =m", "--select=(match .s \"a\") =n"],
